@@ -375,3 +375,33 @@ _extend("C18", "one case in two analyses the same model object first at other pa
                "the values with set_params, and only then makes the measured call.")
 _extend("C19", "grids with non-dyadic steps (0.1, 0.05, 0.3) and numpy.linspace grids; on grids that are not exactly representable "
                "the growth recurrence allows 0..2 steps between rows (the simulator's own clock drifts by an ulp).")
+
+# fourth wave of seeded changes (DESIGN 13.2)
+_extend("C01", "the general mass-action class is also constructed directly at every order 0..4 (a model dispatches orders 0..2 "
+               "to specialised classes); in the deterministic and volume modes the safe interface is compared wherever the "
+               "consumed species are present at all, i.e. also at fractional concentrations below one copy.")
+_extend("C02", "on the model surface the stochastic and stochastic-volume entry points of a general rate must give the same "
+               "value; on the rule surface the expression is, in half of the cases, assigned to a parameter that a second rule "
+               "copies into the observed species; points whose value is decided by rounding (double evaluation differs from "
+               "the 50-digit one by more than 1e-11) are outside the checked domain.")
+_extend("C03", "one model in six is built call by call with 1..2 refused create_reaction calls (unknown species) between the "
+               "accepted ones.")
+_extend("C04", "one case in three sets asymmetric tolerances through the simulator's setter and requires the trajectory to be "
+               "identical to the one obtained with the atol / rtol keywords; the linear family's closed form uses a 30-digit "
+               "matrix exponential.")
+_extend("C06", "one case in four simulates the same model object once before the measured run (same simulator kind, own interface).")
+_extend("C07", "the species rule has frequency 'dt' in one model in three (applied in the first row like a repeated rule); "
+               "pre-built interfaces are, for half of the models, given their initial state explicitly - as an integer array "
+               "or as a buffer that is overwritten afterwards.")
+_extend("C08", "all direct simulator runs of one case share one simulator object; one final seed in eighty is a word-boundary "
+               "value (2**32, 2**40, 2**63, 2**64 - 1, ...) and its repetition is made in another second.")
+_extend("C11", "one growth case in two re-uses a volume object that was initialised and simulated before on a grid with a "
+               "4x / 8x / 0.25x step.")
+_extend("C12", "one rule in four assigns a parameter with a (mostly non-zero) declared value.")
+_extend("C13", "one kinetic law / rule formula in five starts with a unary minus and goes on with further terms.")
+_extend("C14", "one case in four changes the named parameters and exports the same model object a second time.")
+_extend("C16", "the prior dictionary is given in a permuted key order in half of the cases; a 'far tail' class places values at "
+               "tail probabilities 1e-5 .. 1e-80 of unbounded supports; log-densities are compared down to -300.")
+_extend("C17", "plain cell states are cloned at times 0, negative and positive with birth times -4 .. 3, the time written by the setter.")
+_extend("C18", "one case in five has a rate constant in the thousands (the difference step is small against the value).")
+_extend("C19", "one lineage case in four runs on a simulator object that has produced a lineage of the same model before.")
